@@ -283,6 +283,19 @@ def _collect_patterns(body, bound):
         # keep the smallest few full-coverage terms as alternative patterns
         full.sort(key=lambda t: len(t.sexpr()))
         pats = full[:6]
+        if len(bound_ids) >= 2:
+            # plus one multi-pattern of single-variable reads (full-coverage terms such as W(b, q) usually do
+            # not exist as ground terms before the clause has been instantiated once)
+            per = []
+            for bid in bound_ids:
+                own = [t for (t, m) in items if m == frozenset([bid])]
+                if not own:
+                    per = None
+                    break
+                own.sort(key=lambda t: len(t.sexpr()))
+                per.append(own[0])
+            if per:
+                pats.append(z3.MultiPattern(*per))
         return pats
     # multi-pattern: greedy cover
     need = set(bound_ids)
